@@ -1,46 +1,610 @@
+// drive-tbls: correspondence driver for C08 (tbls/herumi.go, tbls/tbls.go, tbls/tblsconv).
+//
+// Runs the real tbls package (herumi implementation, the package default) and records per
+// operation its canonical result. The Lean model (lean/Driver/Tbls.lean over Model/Fr.lean)
+// recomputes every scalar result bit-for-bit (shares from the recorded byte stream, Lagrange
+// recovery) and predicts the outcome of every group-level check from the scalar combination.
+//
+// ops (scalars: 32 byte big-endian hex; messages: hex or "-" for the empty message):
+//
+//	new det <n> <t> <secret> <rnd>         ThresholdSplitInsecure with the byte stream <rnd>
+//	                                       -> ok 1:<share> 2:<share> ... | err threshold|secret|random
+//	new rnd <n> <t> <secret> <id:share,..> ThresholdSplit (CSPRNG); the shares are part of the op so
+//	                                       that the model can check them (exec mode re-splits and
+//	                                       rewrites the line)  -> ok
+//	rec <ids>                              RecoverSecret over the shares <ids>
+//	                                       -> <recovered> sk=<recovered==secret> pk=<SecretToPublicKey(recovered)==group key>
+//	                                          rpk=<RecoverPubkey(pubshares)==group key>
+//	sig <ids> <msg>                        partial signatures of <ids>, ThresholdAggregate
+//	                                       -> agg=<aggregate==Sign(secret,msg)> ver=<Verify(group key) accepts>
+//	subshare <ids> <j> <scalar> <msg>      as sig, but j's partial is Sign(<scalar>, msg)
+//	subindex <ids> <j> <k> <msg>           as sig, but j's partial is share k's signature
+//	submsg <ids> <j> <msg> <msg2>          as sig, but j signs <msg2>
+//
+// `new` starts a fresh episode (reset op).
 package main
 
 import (
 	"bytes"
 	"encoding/hex"
 	"fmt"
+	"io"
+	"math/big"
+	"sort"
+	"strconv"
+	"strings"
 	"testing"
 
 	"github.com/obolnetwork/charon/tbls"
+	"github.com/obolnetwork/charon/tbls/tblsconv"
+
+	"verifharness/hx"
 )
 
-func main() {
-	t := new(testing.T)
-	var one tbls.PrivateKey
-	one[31] = 1
-	pk, err := tbls.SecretToPublicKey(one)
-	fmt.Println(hex.EncodeToString(pk[:]), err)
-	var zero tbls.PrivateKey
-	_, err = tbls.SecretToPublicKey(zero)
-	fmt.Println("zero:", err)
-	rnd := make([]byte, 0)
-	ff := bytes.Repeat([]byte{0xff}, 32)
-	rnd = append(rnd, ff...)
-	rnd = append(rnd, make([]byte, 32)...) // zero
-	c1 := make([]byte, 32); c1[31] = 2
-	rnd = append(rnd, c1...)
-	rd := bytes.NewReader(rnd)
-	sh, err := tbls.ThresholdSplitInsecure(t, one, 3, 2, rd)
-	fmt.Println(err, rd.Len())
-	for i := 0; i <= 3; i++ {
-		v, ok := sh[i]
-		fmt.Println(i, ok, hex.EncodeToString(v[:]))
+var rOrder, _ = new(big.Int).SetString("73eda753299d7d483339d80809a1d80553bda402fffe5bfeffffffff00000001", 16)
+
+type episode struct {
+	n, t      int
+	secret    tbls.PrivateKey
+	groupPK   tbls.PublicKey
+	hasPK     bool
+	shares    map[int]tbls.PrivateKey
+	pubshares map[int]tbls.PublicKey
+}
+
+// planReader serves a fixed byte plan and records what was consumed; an exhausted plan is an error.
+type planReader struct {
+	plan []byte
+	used int
+}
+
+func (p *planReader) Read(b []byte) (int, error) {
+	if len(p.plan)-p.used < len(b) {
+		return 0, io.ErrUnexpectedEOF
 	}
-	// r-1 and r
-	rm1, _ := hex.DecodeString("73eda753299d7d483339d80809a1d80553bda402fffe5bfeffffffff00000000")
-	r0, _ := hex.DecodeString("73eda753299d7d483339d80809a1d80553bda402fffe5bfeffffffff00000001")
-	_, e1 := tbls.SecretToPublicKey(*(*tbls.PrivateKey)(rm1))
-	_, e2 := tbls.SecretToPublicKey(*(*tbls.PrivateKey)(r0))
-	fmt.Println("r-1:", e1, "r:", e2)
-	rec, err := tbls.RecoverSecret(map[int]tbls.PrivateKey{1: sh[1], 3: sh[3]}, 3, 2)
-	fmt.Println(hex.EncodeToString(rec[:]), err)
-	rec, err = tbls.RecoverSecret(map[int]tbls.PrivateKey{0: sh[1], 3: sh[3]}, 3, 2)
-	fmt.Println("id0:", hex.EncodeToString(rec[:]), err)
-	rec, err = tbls.RecoverSecret(map[int]tbls.PrivateKey{1: sh[1]}, 3, 2)
-	fmt.Println("single:", hex.EncodeToString(rec[:]), err)
+	copy(b, p.plan[p.used:p.used+len(b)])
+	p.used += len(b)
+	return len(b), nil
+}
+
+func hexOf(b []byte) string {
+	if len(b) == 0 {
+		return "-"
+	}
+	return hex.EncodeToString(b)
+}
+
+func unhex(s string) []byte {
+	if s == "-" {
+		return nil
+	}
+	b, err := hex.DecodeString(s)
+	hx.Must(err)
+	return b
+}
+
+func privFromHex(s string) tbls.PrivateKey {
+	k, err := tblsconv.PrivkeyFromBytes(unhex(s))
+	hx.Must(err)
+	return k
+}
+
+func b01(b bool) string {
+	if b {
+		return "1"
+	}
+	return "0"
+}
+
+// splitInsecure calls the real ThresholdSplitInsecure; a failing `require` inside it ends the
+// goroutine (FailNow / nil deref on the zero testing.T), reported as aborted.
+func splitInsecure(secret tbls.PrivateKey, n, t int, rd io.Reader) (sh map[int]tbls.PrivateKey, err error, aborted bool) {
+	done := make(chan struct{})
+	go func() {
+		defer close(done)
+		completed := false
+		defer func() {
+			_ = recover()
+			if !completed {
+				aborted = true
+			}
+		}()
+		sh, err = tbls.ThresholdSplitInsecure(new(testing.T), secret, uint(n), uint(t), rd)
+		completed = true
+	}()
+	<-done
+	return sh, err, aborted
+}
+
+func errClass(err error) string {
+	s := err.Error()
+	switch {
+	case strings.Contains(s, "threshold has to be greater"):
+		return "err threshold"
+	case strings.Contains(s, "unmarshal bytes into Herumi secret key"):
+		return "err secret"
+	case strings.Contains(s, "insecure key generation failed"):
+		return "err random"
+	}
+	return "err other"
+}
+
+func sortedIDs(m map[int]tbls.PrivateKey) []int {
+	ids := make([]int, 0, len(m))
+	for i := range m {
+		ids = append(ids, i)
+	}
+	sort.Ints(ids)
+	return ids
+}
+
+// install makes a completed split the current episode and runs the id monitor.
+func (e *episode) install(run *hx.Run, n, t int, secret tbls.PrivateKey, sh map[int]tbls.PrivateKey) {
+	*e = episode{n: n, t: t, secret: secret, shares: sh, pubshares: map[int]tbls.PublicKey{}}
+	if pk, err := tbls.SecretToPublicKey(secret); err == nil {
+		e.groupPK, e.hasPK = pk, true
+	}
+	ids := sortedIDs(sh)
+	okIDs := len(ids) == n
+	for i, id := range ids {
+		if id != i+1 {
+			okIDs = false
+		}
+	}
+	if !okIDs {
+		run.Violate("tbls:share_ids_not_1_to_n", fmt.Sprintf("split n=%d t=%d returned share ids %v", n, t, ids))
+	}
+	for id, s := range sh {
+		if pk, err := tbls.SecretToPublicKey(s); err == nil {
+			e.pubshares[id] = pk
+		}
+	}
+}
+
+func parseIDs(s string) []int {
+	var out []int
+	for _, f := range strings.Split(s, ",") {
+		v, err := strconv.Atoi(f)
+		hx.Must(err)
+		out = append(out, v)
+	}
+	return out
+}
+
+func idsStr(ids []int) string {
+	p := make([]string, len(ids))
+	for i, v := range ids {
+		p[i] = strconv.Itoa(v)
+	}
+	return strings.Join(p, ",")
+}
+
+func (e *episode) distinct(ids []int) bool {
+	seen := map[int]bool{}
+	for _, i := range ids {
+		if seen[i] {
+			return false
+		}
+		seen[i] = true
+	}
+	return true
+}
+
+func (e *episode) doRec(run *hx.Run, ids []int) string {
+	sub := map[int]tbls.PrivateKey{}
+	pub := map[int]tbls.PublicKey{}
+	for _, i := range ids {
+		sub[i] = e.shares[i]
+		pub[i] = e.pubshares[i]
+	}
+	qualified := len(sub) >= e.t && e.t >= 2 && e.t <= e.n
+	rec, err := tbls.RecoverSecret(sub, uint(e.n), uint(e.t))
+	if err != nil {
+		if qualified {
+			run.Violate("tbls:recover_error", fmt.Sprintf("n=%d t=%d ids=%v: %v", e.n, e.t, ids, err))
+		}
+		return "err"
+	}
+	sk := rec == e.secret
+	pkOK := false
+	if pk, err := tbls.SecretToPublicKey(rec); err == nil && e.hasPK {
+		pkOK = pk == e.groupPK
+	}
+	rpkOK := false
+	if rpk, err := tbls.RecoverPubkey(pub); err == nil && e.hasPK {
+		rpkOK = rpk == e.groupPK
+	}
+	if qualified {
+		if !sk {
+			run.Violate("tbls:recover_mismatch", fmt.Sprintf("n=%d t=%d ids=%v recovered %x, secret %x", e.n, e.t, ids, rec, e.secret))
+		}
+		if e.hasPK && !pkOK {
+			run.Violate("tbls:recovered_secret_wrong_pubkey", fmt.Sprintf("n=%d t=%d ids=%v", e.n, e.t, ids))
+		}
+		if e.hasPK && !rpkOK {
+			run.Violate("tbls:recover_pubkey_mismatch", fmt.Sprintf("n=%d t=%d ids=%v RecoverPubkey(pubshares) is not the group key", e.n, e.t, ids))
+		}
+		run.Case(fmt.Sprintf("rec:%d:%d:%s", e.n, e.t, idsStr(ids)))
+	} else {
+		run.Count("rec:below_threshold")
+	}
+	return fmt.Sprintf("%x sk=%s pk=%s rpk=%s", rec[:], b01(sk), b01(pkOK), b01(rpkOK))
+}
+
+// aggregate combines the given partials and compares with the undivided key's signature.
+func (e *episode) aggregate(parts map[int]tbls.Signature, msg []byte) (agg, ver bool, errs string) {
+	full, err := tbls.Sign(e.secret, msg)
+	if err != nil {
+		return false, false, "err"
+	}
+	sig, err := tbls.ThresholdAggregate(parts)
+	if err != nil {
+		return false, false, "err"
+	}
+	agg = sig == full
+	ver = e.hasPK && tbls.Verify(e.groupPK, msg, sig) == nil
+	return agg, ver, ""
+}
+
+func (e *episode) partials(run *hx.Run, ids []int, msg []byte, check bool) map[int]tbls.Signature {
+	parts := map[int]tbls.Signature{}
+	for _, i := range ids {
+		s, err := tbls.Sign(e.shares[i], msg)
+		hx.Must(err)
+		parts[i] = s
+		if check {
+			if pk, ok := e.pubshares[i]; ok && tbls.Verify(pk, msg, s) != nil {
+				run.Violate("tbls:partial_rejected_under_pubshare", fmt.Sprintf("share %d", i))
+			}
+		}
+	}
+	return parts
+}
+
+func (e *episode) qualified(ids []int) bool {
+	return len(ids) >= e.t && e.t >= 2 && e.t <= e.n && e.distinct(ids)
+}
+
+func (e *episode) doSig(run *hx.Run, ids []int, msg []byte) string {
+	parts := e.partials(run, ids, msg, true)
+	agg, ver, es := e.aggregate(parts, msg)
+	if es != "" {
+		if e.qualified(ids) {
+			run.Violate("tbls:aggregate_error", fmt.Sprintf("n=%d t=%d ids=%v", e.n, e.t, ids))
+		}
+		return es
+	}
+	if e.qualified(ids) {
+		if !agg {
+			run.Violate("tbls:aggregate_not_group_signature", fmt.Sprintf("n=%d t=%d ids=%v: ThresholdAggregate differs from Sign(secret)", e.n, e.t, ids))
+		}
+		if !ver {
+			run.Violate("tbls:aggregate_rejected_by_group_key", fmt.Sprintf("n=%d t=%d ids=%v", e.n, e.t, ids))
+		}
+		run.Case(fmt.Sprintf("sig:%d:%d:%s", e.n, e.t, idsStr(ids)))
+	} else {
+		run.Count("sig:below_threshold")
+	}
+	return fmt.Sprintf("agg=%s ver=%s", b01(agg), b01(ver))
+}
+
+// doSub: `alter` replaces j's partial; `effective` says whether the substitution really changes
+// the contribution (side conditions of the theorems hold), in which case acceptance is a violation.
+func (e *episode) doSub(run *hx.Run, kind string, ids []int, j int, msg []byte, repl tbls.Signature, effective bool) string {
+	parts := e.partials(run, ids, msg, false)
+	parts[j] = repl
+	agg, ver, es := e.aggregate(parts, msg)
+	if es != "" {
+		return es
+	}
+	if e.qualified(ids) && effective {
+		if agg || ver {
+			run.Violate("tbls:substitution_accepted_"+kind,
+				fmt.Sprintf("n=%d t=%d ids=%v j=%d: altered combination agg=%v verify=%v", e.n, e.t, ids, j, agg, ver))
+		}
+		run.Case(fmt.Sprintf("sub%s:%d:%d:%d:%d", kind, e.n, e.t, len(ids), j))
+	} else {
+		run.Count("sub" + kind + ":control")
+	}
+	return fmt.Sprintf("agg=%s ver=%s", b01(agg), b01(ver))
+}
+
+func main() {
+	a := hx.ParseArgs()
+	run := hx.NewRun(a.Dir)
+	defer run.Close()
+	ep := &episode{}
+	live := false
+
+	exec := func(op string) {
+		f := strings.Fields(op)
+		switch {
+		case f[0] == "new" && f[1] == "det":
+			n, _ := strconv.Atoi(f[2])
+			t, _ := strconv.Atoi(f[3])
+			secret := privFromHex(f[4])
+			rd := &planReader{plan: unhex(f[5])}
+			run.Count("new:det")
+			sh, err, aborted := splitInsecure(secret, n, t, rd)
+			switch {
+			case aborted:
+				live = false
+				run.Op(op, "err random")
+			case err != nil:
+				live = false
+				run.Count("new:" + errClass(err))
+				run.Op(op, errClass(err))
+			default:
+				ep.install(run, n, t, secret, sh)
+				live = true
+				parts := []string{}
+				for _, id := range sortedIDs(sh) {
+					s := sh[id]
+					parts = append(parts, fmt.Sprintf("%d:%x", id, s[:]))
+				}
+				run.Case(fmt.Sprintf("new:%d:%d", n, t))
+				run.Op(op, "ok "+strings.Join(parts, " "))
+			}
+		case f[0] == "new" && f[1] == "rnd":
+			n, _ := strconv.Atoi(f[2])
+			t, _ := strconv.Atoi(f[3])
+			secret := privFromHex(f[4])
+			run.Count("new:rnd")
+			sh, err := tbls.ThresholdSplit(secret, uint(n), uint(t))
+			if err != nil {
+				live = false
+				run.Op(fmt.Sprintf("new rnd %d %d %s -", n, t, f[4]), errClass(err))
+				return
+			}
+			ep.install(run, n, t, secret, sh)
+			live = true
+			parts := []string{}
+			for _, id := range sortedIDs(sh) {
+				s := sh[id]
+				parts = append(parts, fmt.Sprintf("%d:%x", id, s[:]))
+			}
+			run.Case(fmt.Sprintf("newrnd:%d:%d", n, t))
+			// the op line carries the shares the real code produced in THIS run
+			run.Op(fmt.Sprintf("new rnd %d %d %s %s", n, t, f[4], strings.Join(parts, ",")), "ok")
+		case !live:
+			panic("op without live episode: " + op)
+		case f[0] == "rec":
+			run.Count("rec")
+			run.Op(op, ep.doRec(run, parseIDs(f[1])))
+		case f[0] == "sig":
+			run.Count("sig")
+			run.Op(op, ep.doSig(run, parseIDs(f[1]), unhex(f[2])))
+		case f[0] == "subshare":
+			ids := parseIDs(f[1])
+			j, _ := strconv.Atoi(f[2])
+			sc := privFromHex(f[3])
+			msg := unhex(f[4])
+			repl, err := tbls.Sign(sc, msg)
+			hx.Must(err)
+			run.Count("subshare")
+			run.Op(op, ep.doSub(run, "share", ids, j, msg, repl, sc != ep.shares[j]))
+		case f[0] == "subindex":
+			ids := parseIDs(f[1])
+			j, _ := strconv.Atoi(f[2])
+			k, _ := strconv.Atoi(f[3])
+			msg := unhex(f[4])
+			repl, err := tbls.Sign(ep.shares[k], msg)
+			hx.Must(err)
+			run.Count("subindex")
+			run.Op(op, ep.doSub(run, "index", ids, j, msg, repl, ep.shares[k] != ep.shares[j]))
+		case f[0] == "submsg":
+			ids := parseIDs(f[1])
+			j, _ := strconv.Atoi(f[2])
+			msg, msg2 := unhex(f[3]), unhex(f[4])
+			repl, err := tbls.Sign(ep.shares[j], msg2)
+			hx.Must(err)
+			run.Count("submsg")
+			run.Op(op, ep.doSub(run, "message", ids, j, msg, repl, !bytes.Equal(msg, msg2) && ep.shares[j] != tbls.PrivateKey{}))
+		default:
+			panic("bad op " + op)
+		}
+	}
+
+	if a.Mode == "exec" {
+		for _, op := range hx.ReadOps(a.Ops) {
+			exec(op)
+		}
+		return
+	}
+
+	rng := hx.NewRng(a.Seed)
+	rndBytes := func(n int) []byte {
+		b := make([]byte, n)
+		for i := range b {
+			b[i] = byte(rng.U64())
+		}
+		return b
+	}
+	scalar := func() []byte { // uniform-ish scalar < r, with edge values
+		switch rng.Intn(24) {
+		case 0:
+			return new(big.Int).Sub(rOrder, big.NewInt(int64(1+rng.Intn(3)))).FillBytes(make([]byte, 32))
+		case 1:
+			return big.NewInt(int64(1 + rng.Intn(5))).FillBytes(make([]byte, 32))
+		}
+		v := new(big.Int).SetBytes(rndBytes(32))
+		v.Mod(v, rOrder)
+		if v.Sign() == 0 {
+			v.SetInt64(7)
+		}
+		return v.FillBytes(make([]byte, 32))
+	}
+	message := func() []byte {
+		switch rng.Intn(10) {
+		case 0:
+			return nil
+		case 1:
+			return rndBytes(1)
+		case 2:
+			return rndBytes(32)
+		}
+		return rndBytes(1 + rng.Intn(64))
+	}
+	subsetIDs := func(mask, n int) []int {
+		var ids []int
+		for i := 0; i < n; i++ {
+			if mask&(1<<i) != 0 {
+				ids = append(ids, i+1)
+			}
+		}
+		return ids
+	}
+	popcount := func(m int) int {
+		c := 0
+		for ; m != 0; m &= m - 1 {
+			c++
+		}
+		return c
+	}
+
+	type shape struct{ n, t int }
+	var shapes []shape
+	for n := 2; n <= 10; n++ {
+		for t := 2; t <= n; t++ {
+			shapes = append(shapes, shape{n, t})
+		}
+	}
+	for run.NOps < a.N {
+		for _, si := range rng.Perm(len(shapes)) {
+			n, t := shapes[si].n, shapes[si].t
+			secret := scalar()
+			// -- split
+			if rng.Chance(2, 3) {
+				// byte stream for t-1 coefficients; some reads are >= r (rejected and retried), some zero
+				var plan []byte
+				for c := 1; c < t; c++ {
+					for rng.Chance(1, 5) {
+						bad := rndBytes(32)
+						bad[0] |= 0x80 // >= 2^255 > r
+						if rng.Chance(1, 3) {
+							bad = rOrder.FillBytes(make([]byte, 32)) // exactly r
+						}
+						plan = append(plan, bad...)
+						run.Count("new:rejected_read")
+					}
+					if rng.Chance(1, 25) {
+						plan = append(plan, make([]byte, 32)...) // zero coefficient (accepted by herumi)
+						run.Count("new:zero_coeff")
+					} else {
+						plan = append(plan, scalar()...)
+					}
+				}
+				exec(fmt.Sprintf("new det %d %d %x %s", n, t, secret, hexOf(plan)))
+			} else {
+				exec(fmt.Sprintf("new rnd %d %d %x -", n, t, secret))
+			}
+			if !live {
+				continue
+			}
+			// -- every qualified subset (n <= 7), sampled above; plus below-threshold probes
+			var quals []int
+			full := 1<<n - 1
+			if n <= 7 {
+				for m := 1; m <= full; m++ {
+					if popcount(m) >= t {
+						quals = append(quals, m)
+					}
+				}
+			} else {
+				seen := map[int]bool{full: true}
+				quals = append(quals, full)
+				for len(quals) < 40 {
+					m := 0
+					want := t + rng.Intn(n-t+1)
+					if rng.Chance(1, 2) {
+						want = t
+					}
+					for _, i := range rng.Perm(n)[:want] {
+						m |= 1 << i
+					}
+					if !seen[m] {
+						seen[m] = true
+						quals = append(quals, m)
+					}
+					if len(seen) >= 1<<n-1 {
+						break
+					}
+				}
+			}
+			msg := message()
+			for _, m := range quals {
+				ids := subsetIDs(m, n)
+				if rng.Chance(1, 4) { // map order is irrelevant, list order must be too
+					p := rng.Perm(len(ids))
+					sh := make([]int, len(ids))
+					for i, x := range p {
+						sh[i] = ids[x]
+					}
+					ids = sh
+				}
+				exec("rec " + idsStr(ids))
+				exec(fmt.Sprintf("sig %s %s", idsStr(ids), hexOf(msg)))
+			}
+			for k := 0; k < 3; k++ { // below threshold: t-1 shares (never the property's concern; model predicts failure)
+				ids := subsetIDs(0, n)
+				for _, i := range rng.Perm(n)[:t-1] {
+					ids = append(ids, i+1)
+				}
+				sort.Ints(ids)
+				exec("rec " + idsStr(ids))
+				exec(fmt.Sprintf("sig %s %s", idsStr(ids), hexOf(msg)))
+			}
+			// -- single substitutions on a few qualified subsets: every position j
+			for k := 0; k < 4; k++ {
+				m := quals[rng.Intn(len(quals))]
+				if k == 0 {
+					m = full
+				}
+				ids := subsetIDs(m, n)
+				msg := message()
+				for _, j := range ids {
+					// wrong share
+					var sc []byte
+					switch rng.Intn(12) {
+					case 0: // control: the right share
+						s := ep.shares[j]
+						sc = s[:]
+					case 1: // off by one
+						s := ep.shares[j]
+						v := new(big.Int).SetBytes(s[:])
+						v.Add(v, big.NewInt(1)).Mod(v, rOrder)
+						sc = v.FillBytes(make([]byte, 32))
+					case 2: // the undivided secret itself
+						sc = secret
+					default:
+						sc = scalar()
+					}
+					exec(fmt.Sprintf("subshare %s %d %x %s", idsStr(ids), j, sc, hexOf(msg)))
+					// wrong index: some other node's signature under j (k inside or outside the set)
+					other := 1 + rng.Intn(n)
+					for other == j {
+						other = 1 + rng.Intn(n)
+					}
+					exec(fmt.Sprintf("subindex %s %d %d %s", idsStr(ids), j, other, hexOf(msg)))
+					// wrong message
+					msg2 := append([]byte{}, msg...)
+					switch r := rng.Intn(12); {
+					case r == 0: // control
+					case r < 4 && len(msg2) > 0:
+						msg2[rng.Intn(len(msg2))] ^= 1 << rng.Intn(8)
+					case r < 6:
+						msg2 = append(msg2, 0)
+					case r < 7 && len(msg2) > 0:
+						msg2 = msg2[:len(msg2)-1]
+					default:
+						msg2 = message()
+					}
+					exec(fmt.Sprintf("submsg %s %d %s %s", idsStr(ids), j, hexOf(msg), hexOf(msg2)))
+				}
+			}
+			if run.NOps >= a.N && a.Tier == "quick" {
+				break
+			}
+		}
+	}
 }
